@@ -5,7 +5,7 @@
    ReadLoop report closure and return (stream ended, failed with a status, peer close).
    Hypothesis limit_ok: 0 <= ReadMaxPayloadSize and ReadMaxPayloadSize + 9 <= 2^31; without it the uint32 rounding
    in BufferPool.Get makes the model panic: C04_large_limit_refuted (finding D12). *)
-From Gws Require Import Lib.Base Model.Header Model.Pool Model.CloseCode Model.Reader Proofs.ReaderProofs.
+From Gws Require Import Lib.Base Model.Header Model.Pool Model.CloseCode Model.Reader Proofs.ReaderProofs Gen.Funcs Proofs.GenFuncsProofs.
 Local Open Scope N_scope.
 
 Theorem C04_never_panics_terminates :
@@ -29,6 +29,12 @@ Proof. intros u i W wd ww Hi c st bs Hw Hc. exact (read_message_safe u i W wd ww
 (* the buffer obtained from the pool is always large enough for the declared payload, for requests up to 2^31 *)
 Theorem C04_pool_cap_sufficient : forall n : Z, (1 <= n <= 2 ^ 31)%Z -> (n <= pool_cap n)%Z.
 Proof. exact pool_cap_ge. Qed.
+
+(* Tie to the source: the uint32 rounding of BufferPool.Get (binaryCeil), as regenerated from internal/pool.go on every
+   run, is the model's binary_ceil *)
+Theorem C04_pool_rounding_from_source : forall v, (v < 2 ^ 32)%N ->
+  gf_internal_binaryCeil (Z.of_N v) = Z.of_N (binary_ceil v).
+Proof. exact pool_rounding_from_source. Qed.
 
 (* D12: with a read limit of 2^32 a 10-byte header declaring 2^31-1 bytes makes readMessage slice a 128-byte buffer *)
 Theorem C04_large_limit_refuted :
@@ -54,4 +60,5 @@ Proof. split; [unfold limit_ok; cbn; lia|]. vm_compute. split; reflexivity. Qed.
 Print Assumptions C04_never_panics_terminates.
 Print Assumptions C04_progress.
 Print Assumptions C04_pool_cap_sufficient.
+Print Assumptions C04_pool_rounding_from_source.
 Print Assumptions C04_large_limit_refuted.
